@@ -93,7 +93,7 @@ theorem ILTI.aiStep {s s' : Sys} (h : ILTI s) (hs : SInv s) (hil : ILInv s) (hpw
     (hstaleO : p'.alive = false → ∀ e ∈ s.cl.ilEntries, e.obs = some o →
       ∃ q ∈ s.procs, q.pid ≠ p.pid ∧ q.alive = true ∧ 1 ≤ q.pc ∧
         (∃ preds ret, q.k = .allocTask e.task e.mach preds (some o) true ret ∧
-          ∀ r ∈ s.procs, r.pid = ret → r.alive = false) ∧
+          ∀ r ∈ s.procs, r.pid = ret → r.alive = false ∧ r.wake + 1 ≤ q.wake) ∧
         ∀ t ∈ s.procs, t.k = .telescope → t.alive = true → q.wake < t.wake) : ILTI s' := by
   obtain ⟨tl', hp'k⟩ := hp'k
   have hpnotDW : p.k.isDoWork = false ∧ p.k.ilAtIng = false := by
@@ -133,7 +133,7 @@ theorem ILTI.aiStep {s s' : Sys} (h : ILTI s) (hs : SInv s) (hil : ILInv s) (hpw
     · exact ⟨t', hh, htk, hta, Rat.le_refl⟩
     · have := (hnewk t' hh).2.1
       rw [htk] at this; simp [PK.ilAtTel] at this
-  obtain ⟨t1, t2, t3, t4, t5, t6⟩ := h.tail hs hil hok hpend hrunOn (IlTaskK.of_eq htasks) hold hnewAT
+  obtain ⟨t1, t2, t3, t4, t5, t6, t7⟩ := h.tail hs hil hok hpend hrunOn (IlTaskK.of_eq htasks) hold hnewAT
   -- a supervisor in the new table, other than the one that ran, is an old one, of another observation
   have hAIold : ∀ q' ∈ s'.procs, ∀ o' tl, q'.k = .allocIngest o' tl → q' ≠ p' → q' ∈ s.procs ∧ o' ≠ o := by
     intro q' hq' o' tl hqk hne
@@ -144,7 +144,7 @@ theorem ILTI.aiStep {s s' : Sys} (h : ILTI s) (hs : SInv s) (hil : ILInv s) (hpw
       exact hothers q' hh hpid (by rw [hqk, e]; rfl)
     · have := (hnewk q' hh).1
       rw [hqk] at this; simp [PK.aiObs] at this
-  refine ⟨t1, t2, ?_, ?_, ?_, ?_, t3, t4, t5, t6, ?_⟩
+  refine ⟨t1, t2, ?_, ?_, ?_, ?_, t3, t4, t7, t5, t6, ?_⟩
   · intro q hq o' tl hqk hqc
     by_cases hqp : q = p'
     · rw [hqp] at hqc; exact absurd hqc hp'pc
